@@ -103,4 +103,15 @@ TEXT = {
         "level_note": COMMON_NOTE + "Partial: multi-word theorems missing.",
         "technique": "Lean 4 proof (word-level refinement) + differential correspondence with executable predicate over write histories",
     },
+    "C16": {
+        "level_text": "Proved by kernel decision over all 256 byte values, against the tables regenerated from lib.rs on every run: base_to_bits maps "
+                      "ACGT in either case to 0..3 and everything else to 0; is_valid_base / dna_only_base_to_bits are exact; rendering back gives the "
+                      "upper-cased letter or 'A'; the scalar path is extend over the bytewise conversion and the str constructor agrees with it on "
+                      "code points < 256. The equality of the vector path with the scalar one is not yet a theorem: the AVX2 kernels are "
+                      "modelled intrinsic by intrinsic (tables/immediates extracted from bitops_avx2.rs) and compared with the hardware on "
+                      "arbitrary bytes, and both paths of from_acgt_bytes are compared with the model and with the bytewise reference.",
+        "design_ref": "DESIGN.md section 6, C16",
+        "level_note": COMMON_NOTE + "Partial: lane-wise kernel theorems missing. Intrinsic semantics are transcribed (trusted, validated by execution).",
+        "technique": "Lean 4 proof (exhaustive kernel decision over byte tables) + differential correspondence incl. raw SIMD kernels",
+    },
 }
